@@ -1621,14 +1621,14 @@ theorem tail_sim {x2 : State} {a' : A} (hidle : x2.inTraffic = false) (hS : Sim 
     · rw [f12, hh, cli_since_ticks cfg hmk, g1, g2]
       have : a7.pubT = a'.pubT := by subst ha7; rfl
       rw [this, hS.pubT]
-      by_cases h1 : (cfg.timing && decide (x2.now - x2.tTiming > 900)) = true
+      by_cases h1 : (cfg.timing && decide (x2.now - x2.tTiming > cfg.pTiming)) = true
       · simp [h1, ht1.mpr h1, tallyOn]
       · have : Mark.timingTick ∉ mk := fun hc => h1 (ht1.mp hc)
         simp [h1, this]
     · rw [f14, hh, cli_since_ticks cfg hmk, g1, g3]
       have : a7.pubR = a'.pubR := by subst ha7; rfl
       rw [this, hS.pubR]
-      by_cases h2 : x2.now - x2.tTraffic > 1000
+      by_cases h2 : x2.now - x2.tTraffic > cfg.pTraffic
       · simp [h2, ht2.mpr h2, tallyOn]
       · have : Mark.trafficTick ∉ mk := fun hc => h2 (ht2.mp hc)
         simp [h2, this]
@@ -1641,7 +1641,7 @@ theorem tail_sim {x2 : State} {a' : A} (hidle : x2.inTraffic = false) (hS : Sim 
     have g7 : a7.recvR = rR := by subst ha7; rfl
     constructor
     · rw [f13, g1, g2, g6, hh]
-      by_cases h1 : (cfg.timing && decide (x2.now - x2.tTiming > 900)) = true
+      by_cases h1 : (cfg.timing && decide (x2.now - x2.tTiming > cfg.pTiming)) = true
       · simp [h1]
       · simp only [h1, Bool.false_eq_true, if_false]
         have hn : Mark.timingTick ∉ mk := fun hc => h1 (ht1.mp hc)
@@ -1649,7 +1649,7 @@ theorem tail_sim {x2 : State} {a' : A} (hidle : x2.inTraffic = false) (hS : Sim 
         refine Nat.le_trans (hrT q hq) ?_
         rw [sinceTick_append_notin _ mk _ hn, hmgr_append]; omega
     · rw [f15, g1, g3, g7, hh]
-      by_cases h2 : x2.now - x2.tTraffic > 1000
+      by_cases h2 : x2.now - x2.tTraffic > cfg.pTraffic
       · simp [h2]
       · simp only [h2, if_false]
         have hn : Mark.trafficTick ∉ mk := fun hc => h2 (ht2.mp hc)
